@@ -20,6 +20,8 @@ fn cap_word(c: &Capability) -> &'static str {
         Capability::AG_AIRBORNE => "airborne",
         Capability::AG_UNCERTAIN2 => "uncertain2",
         Capability::AG_UNCERTAIN3 => "airborne?",
+        #[allow(unreachable_patterns)]
+        _ => "<new variant>",
     }
 }
 
@@ -55,6 +57,8 @@ fn bds_text(b: &BDS, br: &mut Vec<String>) -> String {
             br.push("bds:unknown".into());
             "Comm-B format: unknown format\n".into()
         }
+        #[allow(unreachable_patterns)]
+        _ => "<new BDS variant>".into(),
     }
 }
 
@@ -62,6 +66,8 @@ fn sign_s(s: &Sign) -> &'static str {
     match s {
         Sign::Positive => "",
         Sign::Negative => "-",
+        #[allow(unreachable_patterns)]
+        _ => "<new variant>",
     }
 }
 
@@ -98,6 +104,8 @@ fn version_n(v: &ADSBVersion) -> u8 {
         ADSBVersion::DOC9871AppendixA => 0,
         ADSBVersion::DOC9871AppendixB => 1,
         ADSBVersion::DOC9871AppendixC => 2,
+        #[allow(unreachable_patterns)]
+        _ => 99,
     }
 }
 
@@ -115,6 +123,8 @@ fn altitude_block(a: &Altitude, br: &mut Vec<String>) -> String {
     let odd = match a.odd_flag {
         CPRFormat::Even => "even",
         CPRFormat::Odd => "odd",
+        #[allow(unreachable_patterns)]
+        _ => "<new variant>",
     };
     br.push(format!("cpr:{odd}"));
     format!("  Altitude:      {alt}\n  CPR type:      Airborne\n  CPR odd flag:  {odd}\n  CPR latitude:  ({})\n  CPR longitude: ({})\n", a.lat_cpr, a.lon_cpr)
@@ -138,7 +148,7 @@ fn me_text(me: &ME, icao: &ICAO, address_type: &str, capability: &Capability, is
             br.push("me:noposition".into());
             head(&mut f, "No position information", true)
         }
-        ME::AircraftIdentification(Identification { tc, ca, cn }) => {
+        ME::AircraftIdentification(Identification { tc, ca, cn, .. }) => {
             br.push("me:ident".into());
             head(&mut f, "Aircraft identification and category", true);
             let t = match tc {
@@ -146,6 +156,8 @@ fn me_text(me: &ME, icao: &ICAO, address_type: &str, capability: &Capability, is
                 TypeCoding::C => "C",
                 TypeCoding::B => "B",
                 TypeCoding::A => "A",
+                #[allow(unreachable_patterns)]
+                _ => "<new variant>",
             };
             br.push(format!("cat:{t}"));
             let _ = writeln!(f, "  Ident:         {cn}");
@@ -171,6 +183,8 @@ fn me_text(me: &ME, icao: &ICAO, address_type: &str, capability: &Capability, is
                     let src = match v.vrate_src {
                         VerticalRateSource::BarometricPressureAltitude => "barometric",
                         VerticalRateSource::GeometricAltitude => "GNSS",
+                        #[allow(unreachable_patterns)]
+                        _ => "<new variant>",
                     };
                     br.push(format!("vrsrc:{src}"));
                     let _ = writeln!(f, "  Heading:       {}", (heading as f64).ceil());
@@ -198,6 +212,8 @@ fn me_text(me: &ME, icao: &ICAO, address_type: &str, capability: &Capability, is
                 br.push("me:vel_rsv".into());
                 head(&mut f, "Airborne Velocity status (reserved)", false)
             }
+            #[allow(unreachable_patterns)]
+            _ => f += "<new velocity subtype>",
         },
         ME::AirbornePositionGNSSAltitude(a) => {
             br.push("me:airborne_gnss".into());
@@ -225,6 +241,8 @@ fn me_text(me: &ME, icao: &ICAO, address_type: &str, capability: &Capability, is
                 EmergencyState::UnlawfulInterference => "unflawful interference",
                 EmergencyState::DownedAircraft => "downed aircraft",
                 EmergencyState::Reserved2 => "reserved2",
+                #[allow(unreachable_patterns)]
+                _ => "<new variant>",
             };
             br.push(format!("emergency:{e}"));
             let _ = writeln!(f, "  Squawk:        {squawk:x}");
@@ -343,6 +361,8 @@ fn me_text(me: &ME, icao: &ICAO, address_type: &str, capability: &Capability, is
             br.push("me:ops_rsv".into());
             head(&mut f, "Aircraft operational status (reserved)", false)
         }
+        #[allow(unreachable_patterns)]
+        _ => f += "<new ME variant>",
     }
     f
 }
@@ -446,6 +466,8 @@ pub fn refrender(frame: &Frame) -> (String, Vec<String>) {
             let _ = writeln!(f, " Mode S Extended Squitter Message");
             let _ = writeln!(f, "    ICAO Address:     {crc:x} (Mode S / ADS-B)");
         }
+        #[allow(unreachable_patterns)]
+        _ => f += "<new DF variant>",
     }
     (f, br)
 }
